@@ -89,6 +89,7 @@ func (w *world) monResponse(r addReq, res result) {
 			onrec + "); history: " + w.history(ns.origin)
 	}
 	mon("mon_released", args, found, why)
+	w.monLogKey(r, args)
 	w.monOneView(ns.origin, n, ns.root, "answer")
 	text := torchwood.Checkpoint{Origin: ns.origin, Tree: tlog.Tree{N: n, Hash: ns.root}}.String()
 	lines := strings.SplitAfter(res.raw, "\n")
@@ -121,6 +122,37 @@ func (w *world) monResponse(r addReq, res result) {
 		ok, why = false, "missing cosignature"
 	}
 	mon("mon_cosig", args, ok, why)
+}
+
+// C14 "only for a checkpoint signed by that log's key": a cosigned note carries a signature that verifies over its text
+// under a key that was listed for ITS origin (a key of another configured log does not count)
+func (w *world) monLogKey(r addReq, args []string) {
+	ok := false
+	var seen []string
+	for _, l := range strings.SplitAfter(string(r.note.bytes), "\n") {
+		if !strings.HasPrefix(l, "— ") {
+			continue
+		}
+		name, hash, pok := parseSigLine(l)
+		if !pok {
+			continue
+		}
+		id := w.kr.idOf(name, hash)
+		if id == 0 {
+			continue
+		}
+		v := w.kr.keys[id].verifier.Verify([]byte(r.note.text), sigBytes(l))
+		seen = append(seen, fmt.Sprintf("%d:%v", id, v))
+		if v && w.logKeys[r.note.spec.origin][id] {
+			ok = true
+		}
+	}
+	why := ""
+	if !ok {
+		why = fmt.Sprintf("cosignature for a checkpoint of %q that carries no verifying signature by a key listed for that origin (signature lines key:verifies = %v; listed keys %v); history: %s",
+			r.note.spec.origin, seen, w.logKeys[r.note.spec.origin], w.history(r.note.spec.origin))
+	}
+	mon("mon_logkey", args, ok, why)
 }
 
 // a 409 carries the recorded size: the size in the body is what the origin's register held at some moment between the
